@@ -1,9 +1,10 @@
 import Verif.Driver.Align
 import Verif.Driver.SoundClass
 import Verif.Driver.Cluster
+import Verif.Driver.TreeDist
 open Verif.Driver
 
-def handlers : List (List (List String) → Option String) := [handleAlign, handleSC, handleCluster]
+def handlers : List (List (List String) → Option String) := [handleAlign, handleSC, handleCluster, handleTree]
 
 def dispatch (line : String) : String :=
   let fs := fields line
